@@ -549,7 +549,7 @@ def _kaiser(n, beta):
     from scipy.special import iv as besselI
 
     m = n - 1
-    k = arange(0, m)
+    k = arange(0, m + 1)
     k = 2.0 * beta / m * sqrt(k * (m - k))
     w = besselI(0, k) / besselI(0, beta)
     return w
